@@ -205,7 +205,7 @@ def h_reuse(ctx, kind):
     ctx.eq('second call with the same block at a new T', got, _sum(Ps, 'HoRT', T2, P, blocks) - _sum(Rs, 'HoRT', T2, P, blocks))
 
 
-TRICKY = [['H2_gas', 'H2'], ['Ar', 'A'], ['CH3_s', 'CH3_'], ['OHk', 'kwargs'], ['W_w', 'Ag_kwargs']]
+TRICKY = [['H2_gas', 'H2'], ['Ar', 'A'], ['CH3_s', 'CH3_'], ['OHk', 'kwargs'], ['W_w', 'Ag_kwargs'], ['CO(S)', 'O(S)'], ['O(S)', 'CO(S)']]
 
 
 def h_names(ctx, kind, names):
